@@ -83,7 +83,7 @@ ASSUMPTIONS = ['storage layouts are the ones in the docstring of vf/props/c14.py
                'same on the firmware side)',
                'EEPROM images of unknown version (>= 2) are never reported valid; that update() then never calls back is noted, '
                'not asserted']
-OUTSIDE = ['PyYAML fidelity and file-system errors', 'LighthouseMemHelper / LighthouseConfigWriter sequencing of several pages (C06-style plumbing)',
+OUTSIDE = ['PyYAML fidelity and file-system errors', 'LighthouseConfigWriter (upload + persist sequencing through the localization service)',
            '1-wire images with unknown element ids or truncated TLVs (KeyError / struct.error escape new_data)',
            'numeric value of the compressed-trajectory scaling for non-integer metres and arbitrary angles (C13)',
            'deck names with non-ASCII bytes (the library drops such a deck on purpose)', 'NaN / infinite float fields',
@@ -371,7 +371,7 @@ def h_ow_valid(sym):
 
 # ================================================================ lighthouse memory layout
 from cflib.crazyflie.mem.lighthouse_memory import (LighthouseMemory, LighthouseBsGeometry,      # noqa: E402
-                                                    LighthouseBsCalibration)
+                                                    LighthouseBsCalibration, LighthouseMemHelper)
 
 SWEEP_FIELDS = ('phase', 'tilt', 'curve', 'gibmag', 'gibphase', 'ogeemag', 'ogeephase')     # firmware struct order
 
@@ -491,6 +491,85 @@ def h_lh_flags(sym):
     m.read_geo_data(bs, done, update_failed_cb=fail)
     h.serve(fail=True)
     assert len(done.calls) == 2 and len(fail.calls) == 1
+
+
+class _CfWithLh:
+    """What LighthouseMemHelper uses of a Crazyflie: cf.mem.get_mems(type)."""
+    def __init__(self, lh):
+        self.mem = self
+        self._lh = lh
+
+    def get_mems(self, t):
+        return [self._lh] if t == MemoryElement.TYPE_LH else []
+
+
+def h_lh_helper(sym):
+    """LighthouseMemHelper.write_geos / write_calibs for a solver-chosen subset of base stations, then read_all_*: the device
+    supports the first n base stations (requests for the others fail, as the firmware does).  Every object of the subset that
+    the device supports is on its own page, nothing else is written, the done callback comes once with the right verdict, and
+    reading everything gives back exactly the supported base stations with the written content."""
+    what = sym.B['what']
+    cand = [0, 1, 3, 15]
+    chosen = [i for i in cand if sbool(sym, f'bs{i}_in_subset')]
+    n_sup = [2, 4, 16][sym.choice('supported_sel', 3)]
+    h = Mem()
+    m = LighthouseMemory(id=4, type=MemoryElement.TYPE_LH, size=0x2000, mem_handler=h)
+    helper = LighthouseMemHelper(_CfWithLh(m))
+    base = 0 if what == 'geo' else 0x1000
+    objs = {}
+    for k, i in enumerate(chosen):
+        if what == 'geo':
+            vals = [c + k for c in _CONSTS[:12]]
+            if k == 0:
+                vals[0] = f32(sym, 'x')
+            objs[i] = mk_geo(vals)
+        else:
+            vals = [c + k for c in _CONSTS[:14]]
+            if k == 0:
+                vals[0] = f32(sym, 'x')
+            objs[i] = mk_calib(vals)
+            objs[i].uid = 1000 + i
+        objs[i].valid = True
+
+    def serve_all():
+        n = 0
+        while h.pending:
+            n += 1
+            assert n <= 40, 'helper keeps issuing requests'
+            addr = h.pending[0][2]
+            h.serve(fail=((addr - base) // 0x100 >= n_sup))
+    done = Calls()
+    (helper.write_geos if what == 'geo' else helper.write_calibs)(dict(objs), done)
+    serve_all()
+    assert len(done.calls) == 1, 'write done callback not called exactly once'
+    assert (True if done.calls[0][0] else False) == all(i < n_sup for i in chosen), 'verdict of the write'
+    assert sorted(a for (a, d, f) in h.writes) == [base + i * 0x100 for i in chosen], 'pages written: one per object of the subset'
+    for (a, d, f) in h.writes:
+        i = (a - base) // 0x100
+        ref = struct.pack('<12f?', *(geo_floats(objs[i]) + [True])) if what == 'geo' else \
+            struct.pack('<14fL?', *(calib_floats(objs[i]) + [objs[i].uid, True]))
+        assert all_equal(d, ref), 'page content of a written object'
+    rd = Calls()
+    (helper.read_all_geos if what == 'geo' else helper.read_all_calibs)(rd)
+    serve_all()
+    assert len(rd.calls) == 1, 'read done callback not called exactly once'
+    res = rd.calls[0][0]
+    assert sorted(res.keys()) == list(range(n_sup)), 'read_all returns exactly the base stations the device supports'
+    for i in chosen:
+        if i < n_sup:
+            got, exp = (geo_floats(res[i]), geo_floats(objs[i])) if what == 'geo' else (calib_floats(res[i]), calib_floats(objs[i]))
+            ref = struct.unpack('<%df' % len(exp), struct.pack('<%df' % len(exp), *exp))
+            assert all_equal(got, ref), ('object read back differs from the one written', i)
+            assert res[i].valid
+            if what != 'geo':
+                assert res[i].uid == objs[i].uid
+    # a second operation is accepted afterwards (no "not finished" record left)
+    done2 = Calls()
+    (helper.write_geos if what == 'geo' else helper.write_calibs)({}, done2)
+    assert len(done2.calls) == 1 and done2.calls[0][0]
+    sym.goal('subset-written' if chosen else 'empty-subset')
+    if any(i >= n_sup for i in chosen):
+        sym.goal('unsupported-in-subset')
 
 
 # ================================================================ YAML files (lossless in-memory store instead of PyYAML)
@@ -919,6 +998,11 @@ HARNESSES = [
     Harness('lh_geo', h_lh_geo, goals=('valid', 'not-valid'), timeout=(250, 900), smt_timeout=1.5),
     Harness('lh_calib', h_lh_calib, goals=('valid', 'not-valid'), timeout=(250, 900), smt_timeout=1.5),
     Harness('lh_flags', h_lh_flags, timeout=(250, 900)),
+    Harness('lh_helper[geo]', h_lh_helper, quick=dict(what='geo'), timeout=(400, 1200), smt_timeout=1.5,
+            goals=('subset-written', 'empty-subset', 'unsupported-in-subset'),
+            note='LighthouseMemHelper: any subset of base stations 0, 1, 3, 15 on a device supporting 2, 4 or 16 of them'),
+    Harness('lh_helper[calib]', h_lh_helper, quick=dict(what='calib'), timeout=(400, 1200), smt_timeout=1.5,
+            goals=('subset-written', 'empty-subset', 'unsupported-in-subset')),
     Harness('lh_file', h_lh_file, quick=dict(geo_ids=(0, 1, 15), calib_ids=(0, 15)),
             thorough=dict(geo_ids=(0, 1, 7, 15), calib_ids=(0, 8, 15)), goals=('both', 'invalid-skipped', 'empty'), timeout=(250, 1500)),
     Harness('lh_file_envelope', h_lh_file_envelope, goals=('accepted', 'refused')),
